@@ -481,6 +481,39 @@ def p_txid(v1, v2):
     return None
 
 
+def p_txid_inplace(v1, v2):
+    """the id is a function of the CURRENT fields: after the id (and repr) of an object were computed, editing
+    the object in place to the fields of v2 makes id()/hash()/serialize agree with a fresh object for v2"""
+    if not (serializable(v1) and serializable(v2)):
+        return None
+    a, b = mk_tx(v1), mk_tx(v2)
+    first = a.id()
+    if first != ref_txid(v1):
+        return "id() of a fresh object is wrong"
+    with contextlib.redirect_stdout(io.StringIO()):
+        repr(a)
+    a.hash()
+    # field-wise in-place edit
+    a.version, a.locktime, a.segwit = b.version, b.locktime, b.segwit
+    a.tx_outs[:] = b.tx_outs
+    a.tx_ins[:] = b.tx_ins
+    if a.id() != ref_txid(v2) or a.hash().hex() != ref_txid(v2):
+        return "id()/hash() after an in-place edit is not the txid of the current fields (stale value)"
+    if a.serialize_legacy() != ref_legacy(v2):
+        return "serialize_legacy() after an in-place edit does not reflect the current fields"
+    # finer-grained edits on the same object: amount, sequence, locktime
+    if a.tx_outs:
+        a.tx_outs[0].amount = (a.tx_outs[0].amount + 1) % U64
+    if a.tx_ins:
+        a.tx_ins[0].sequence = type(a.tx_ins[0].sequence)((int(a.tx_ins[0].sequence) + 1) % U32)
+    a.locktime = type(a.locktime)((int(a.locktime) + 1) % U32)
+    want = hashlib.sha256(hashlib.sha256(a.serialize_legacy()).digest()).digest()[::-1].hex()
+    fresh = Tx.parse(BytesIO(a.serialize())).id() if (a.segwit or a.tx_ins) else want
+    if a.id() != want or fresh != want:
+        return "id() after editing amount/sequence/locktime in place is stale"
+    return None
+
+
 def p_fetch(resp, idb, must_accept):
     """whatever the server returned, a transaction handed out (and cached) for tx_id hashes to tx_id"""
     tx_id = idb.decode("latin-1")
@@ -514,7 +547,7 @@ def p_fetch(resp, idb, must_accept):
 
 
 PROPS = {"script_rt": p_script_rt, "raw_fallback": p_raw_fallback, "witness_rt": p_witness_rt, "tx_rt": p_tx_rt, "zero_inputs": p_zero_inputs,
-         "bytes_rt": p_bytes_rt, "txid": p_txid, "fetch": p_fetch}
+         "bytes_rt": p_bytes_rt, "txid": p_txid, "txid_inplace": p_txid_inplace, "fetch": p_fetch}
 
 
 def classify(v):
@@ -964,10 +997,12 @@ def generate(ctx):
         if serializable(v2):
             ctx.label("txid/nonwitness-edit/" + kind)
             yield ("prop", "txid", [v, v2])
+            yield ("prop", "txid_inplace", [v, v2])
             yield ("corr", "tx_id", [v2])
         kind, v3 = mutate_witness(ctx, r, v)
         ctx.label("txid/witness-edit/" + kind)
         yield ("prop", "txid", [v, v3])
+        yield ("prop", "txid_inplace", [v, v3])
         yield ("corr", "tx_hash", [v3])
     # ------------------------------------------------------------ malformed stream
     mal = [s for s in samples if serializable(s) and len(ref_full(s)) < 400]
